@@ -44,6 +44,11 @@ func eqAlphabet(c *ctx) []eqSym {
 		auth("unsigned4", func() hx.AuthSpec { a := base(4, "d4"); a.Signer = ""; return a }),
 		auth("temp-signed4", func() hx.AuthSpec { a := base(4, "d4"); a.Signer = "temp"; return a }),
 		auth("gca2-signed4", func() hx.AuthSpec { a := base(4, "d4"); a.Signer = "gca2"; return a }),
+		{"resigned1", func(s *scn) { // the content of new1 under another valid signature of the GCA: a different authorization
+			ra := hx.ToRawAuth(s.BuildAuth(base(1, "d1")))
+			ra.Signature = s.SR.SignAlt("gca", hx.RefAuthSigningBytes(ra), 1)
+			s.Authorize(hx.FromRawAuth(ra))
+		}},
 		{"altered1", func(s *scn) { // valid signature, then one field changed
 			a := s.BuildAuth(base(5, "d5"))
 			a.Capacity++
@@ -126,6 +131,8 @@ func runEquip(c *ctx) error {
 		sq("new1", "fresh3-key-of-1", "report1", "restart", "report1"),
 		sq("new1", "report1", "c1-cap", "restart", "restart", "new1", "report1"),
 		sq("new1", "new2", "report1", "report2", "c1-newkey", "restart", "report2"),
+		sq("new1", "new2", "report1", "resigned1", "restart", "report1", "restart", "dup1"),
+		sq("resigned1", "report1", "new1", "restart", "report1"),
 	)
 	nr := 30
 	if c.tier == "thorough" {
